@@ -277,10 +277,51 @@ def fields(line):
     return head, {m.group(1): m.group(2) for m in re.finditer(r"(\w+)=(\[[^\]]*\]|\S+)", tail)}
 
 
+# markers the harness prints when the implementation contradicts itself (two spellings of one query disagree, an object
+# is not the one it must be, a payload reads back corrupted): which property each marker speaks about.  C18 / C19 / ALL
+# see every marker (any of them may be the visible end of undefined behaviour or of a feature switch changing behaviour).
+FAIL_OWNERS = [
+    ("callback received an event object", ("C05",)),
+    ("control.context()", ("C06",)), ("control._()", ("C06",)), ("context() const", ("C06",)),
+    ("control.isActive<TState>()", ("C06", "C14")),
+    ("FAIL: isActive<TState>()", ("C01", "C14")),
+    ("FAIL:plan-", ("C10",)),
+    ("CORRUPT", ("C07",)),
+]
+SEE_ALL = ("C18", "C19", "ALL")
+
+
+def fail_marker(prop, line):
+    """the self-contradiction marker in `line` that `prop` speaks about, or None"""
+    if "FAIL:" not in line and "CORRUPT" not in line:
+        return None
+    for pat, owners in FAIL_OWNERS:
+        if pat in line:
+            return pat if (prop in owners or prop in SEE_ALL) else None
+    return "FAIL" if line.startswith("FAIL:") else None     # a marker without an owner entry: everybody's
+
+
+def clean(lines):
+    """the trace without inline markers (what the oracles parse)"""
+    if not any(" FAIL:plan-" in l for l in lines):
+        return lines
+    return [re.sub(r" FAIL:plan-[\w-]+", "", l) for l in lines]
+
+
+def strip_markers(prop, line):
+    """inline markers (inside a plan=[...] field) are removed for the properties that do not own them"""
+    if " FAIL:plan-" in line and fail_marker(prop, line) is None:
+        line = re.sub(r" FAIL:plan-[\w-]+", "", line)
+    return line
+
+
 def project(prop, line):
     """returns the projected form of a trace line for `prop`, or None if the property does not speak about it"""
-    if line.startswith("FAIL:") or line.startswith("bad-"):
+    if line.startswith("FAIL:"):
+        return line if fail_marker(prop, line) else None
+    if line.startswith("bad-"):
         return line
+    line = strip_markers(prop, line)
     kind = line.split(" ", 1)[0]
     if prop in ("ALL",):
         return line
